@@ -34,6 +34,8 @@ BIG_FLOATS = ["9007199254740992.0", "9007199254740993.0", "1e16", "1e20", "1.844
               "1e78", "1e400", "2e77", "123456789012345678901234567890.0", "1.0e53"]
 BIG_INTS = ["18446744073709551616", "18446744073709551617", "340282366920938463463374607431768211456", str(U256_MAX), str(U256_MAX + 1),
             str(2**255), "100000000000000000000", "9" * 80]
+ZERO_FORMS = ["0e999", "0.0e0", "0E-999", "0.000", "0e0", "0.0", "0E+5", "00e0"[1:], "-0e5", "-0.0"]
+ESCAPED_STRINGS = ['"\\u0030x10"', '"0\\u007810"', '"\\u0031\\u0032"', '"0x\\u0066F"', '"1\\u0030"']
 NEAR_53 = ["9007199254740991.0", "9007199254740990.0", "9007199254740989.0", "9.007199254740991e15", "900719925474099.1e1",
            "90071992547409910e-1", "4503599627370497.0", "4503599627370495.0", "8765432109876543.0", "9007199254740991e0",
            "7205759403792793.0", "6755399441055743.0", "1234567890123457.0", "0.9007199254740991e16", "9007199254740.991e3"]
@@ -230,7 +232,7 @@ def gen(shard, rng, tier):
     name = shard["name"]
     if name.startswith("num-"):
         # the fixed lists are swept completely (each entry x a random field), then random tokens
-        fixed = NEG_NUMBERS + FRACTIONS + BELOW_HALF_ULP + BIG_FLOATS + BIG_INTS + NEAR_53 + KINDS_BAD + \
+        fixed = NEG_NUMBERS + FRACTIONS + BELOW_HALF_ULP + BIG_FLOATS + BIG_INTS + NEAR_53 + KINDS_BAD + ZERO_FORMS + ESCAPED_STRINGS + \
             [json.dumps(s) for s in STRINGS_BAD + STRINGS_EITHER]
         todo = [t for i, t in enumerate(fixed) if i % 12 == shard["idx"]] * 3 + [None] * shard["count"]
         for t in todo:
